@@ -52,3 +52,12 @@ M("c11-adapter-wait-not-awaited", "C11", SYNC, "EventAdapter.wait", "        awa
 M("c11-condition-aexit-conditional", "C11", SYNC, "Condition.__aexit__", "        self.release()", "        if exc_type is None:\n            self.release()", ["R11-f"])
 # from seeded change C08/c (round 2)
 M("c11-adapter-wait-fast-path", "C11", SYNC, "EventAdapter.wait", "        await self._event.wait()", "        if self._internal_event is None and self._is_set:\n            await checkpoint_if_cancelled()\n            return\n\n        await self._event.wait()", ["R11-f"])
+
+# two-phase notify (delivered neutral patch C11/n6): collect into a list, then wake the list
+_NOTIFY_OLD = ("        for _ in range(n):\n            try:\n                event = self._waiters.popleft()\n            except IndexError:\n                break\n\n            event.set()\n")
+_COLLECT = ("        selected = []\n        for _ in range(n):\n            try:\n                selected.append(self._waiters.popleft())\n            except IndexError:\n                break\n\n")
+N("c11-n-notify-collect-then-wake", "C11", SYNC, "Condition.notify", _NOTIFY_OLD, _COLLECT + "        for event in selected:\n            event.set()\n")
+M("c11-notify-collect-wakes-all-but-first", "C11", SYNC, "Condition.notify", _NOTIFY_OLD, _COLLECT + "        for event in selected[1:]:\n            event.set()\n", ["R11-d"])
+M("c11-notify-collect-wake-loop-breaks", "C11", SYNC, "Condition.notify", _NOTIFY_OLD, _COLLECT + "        for event in selected:\n            event.set()\n            break\n", ["R11-d"])
+M("c11-notify-collect-unbounded", "C11", SYNC, "Condition.notify", _NOTIFY_OLD, _COLLECT.replace("range(n)", "range(n + 1)") + "        for event in selected:\n            event.set()\n", ["R11-d"])
+M("c11-notify-collect-never-woken", "C11", SYNC, "Condition.notify", _NOTIFY_OLD, _COLLECT + "        if not selected:\n            for event in selected:\n                event.set()\n", ["R11-d"])
